@@ -57,7 +57,7 @@ def one(name, baseline=True, extra_checks=()):
         meta["checks"] = {}
         for c in (prop,) + tuple(extra_checks):
             t = time.time()
-            r = sh(f"./check {c} --tier quick", cwd=HERE, env=dict(os.environ, VF_REPO=wt, VF_OUT=out), timeout=7200)
+            r = sh(f"./check {c} --tier quick", cwd=HERE, env=dict(os.environ, VF_REPO=wt, VF_OUT=out, VF_FAST_FAIL="1"), timeout=7200)
             lines = [l[:300] for l in r.stdout.splitlines() if l.startswith(("VIOLATION", "  failure", "HARNESS"))]
             meta["checks"][c] = {"rc": r.returncode, "wall_s": round(time.time() - t, 1), "signatures": [l for l in lines if l.startswith("  failure")][:6]}
             meta["ran"].append(f"VF_REPO=<worktree> ./check {c} --tier quick -> exit {r.returncode}")
@@ -73,7 +73,13 @@ def one(name, baseline=True, extra_checks=()):
 
 
 if __name__ == "__main__":
-    names = sys.argv[1:] or sorted(n for n in os.listdir(os.path.join(HERE, "seeded")) if os.path.isdir(os.path.join(HERE, "seeded", n)))
+    names = [a for a in sys.argv[1:] if not a.startswith("--")] or sorted(n for n in os.listdir(os.path.join(HERE, "seeded")) if os.path.isdir(os.path.join(HERE, "seeded", n)))
+    if "--skip-done" in sys.argv:
+        names = [n for n in names if not os.path.exists(os.path.join(HERE, "seeded", n, "meta.json"))]
+    names = [n for n in names if not n.startswith("own_")]
+    if "--half" in sys.argv:
+        k = int(sys.argv[sys.argv.index("--half") + 1])
+        names = names[k::2]
     for n in names:
         m = one(n)
         print(n, "confirmed=", m.get("confirmed"), "caught_by=", m.get("caught_by"), "baseline=", m.get("baseline_still_green"), flush=True)
